@@ -108,24 +108,24 @@ var sysTable = map[uint64]sysDesc{
 
 // Event is one recorded system call of an operation phase.
 type Event struct {
-	Seq      int      `json:"seq"`
-	Name     string   `json:"name"`
-	Kind     string   `json:"kind"`
-	Path     string   `json:"path,omitempty"`  // cleaned absolute path (first path argument or fd target)
-	Path2    string   `json:"path2,omitempty"` // second path (rename/link target)
-	Ino      uint64   `json:"ino,omitempty"`   // inode of the fd target
-	IsDir    bool     `json:"is_dir,omitempty"`
-	Flags    int64    `json:"flags,omitempty"`
-	Ret      int64    `json:"ret"`
-	Mutating bool     `json:"mutating"`
-	Injected string   `json:"injected,omitempty"`
+	Seq      int       `json:"seq"`
+	Name     string    `json:"name"`
+	Kind     string    `json:"kind"`
+	Path     string    `json:"path,omitempty"`  // cleaned absolute path (first path argument or fd target)
+	Path2    string    `json:"path2,omitempty"` // second path (rename/link target)
+	Ino      uint64    `json:"ino,omitempty"`   // inode of the fd target
+	IsDir    bool      `json:"is_dir,omitempty"`
+	Flags    int64     `json:"flags,omitempty"`
+	Ret      int64     `json:"ret"`
+	Mutating bool      `json:"mutating"`
+	Injected string    `json:"injected,omitempty"`
 	Before   vlib.Snap `json:"-"` // sandbox base directory just before the call (mutating / sync calls only)
 }
 
 type OpTrace struct {
-	Index   int      `json:"index"`
-	Outcome string   `json:"outcome"` // ok | fail | "" (never finished)
-	Events  []*Event `json:"events"`
+	Index   int       `json:"index"`
+	Outcome string    `json:"outcome"` // ok | fail | "" (never finished)
+	Events  []*Event  `json:"events"`
 	Pre     vlib.Snap `json:"-"` // base directory at the begin marker
 	Post    vlib.Snap `json:"-"` // base directory at the end marker
 }
@@ -138,12 +138,12 @@ type Injection struct {
 }
 
 type Result struct {
-	Ops        []*OpTrace
-	Stdout     []byte
-	ExitCode   int
-	Signal     int
-	InjectHit  bool
-	Unknown    []string // syscalls outside the table that reference the sandbox (case becomes inconclusive)
+	Ops       []*OpTrace
+	Stdout    []byte
+	ExitCode  int
+	Signal    int
+	InjectHit bool
+	Unknown   []string // syscalls outside the table that reference the sandbox (case becomes inconclusive)
 }
 
 type Options struct {
@@ -202,13 +202,13 @@ func Run(argv []string, opt Options) (*Result, error) {
 }
 
 type sysInfo struct {
-	Op    uint8
-	_     [3]uint8
-	Arch  uint32
-	IP    uint64
-	SP    uint64
-	Nr    uint64 // entry: nr; exit: rval (int64)
-	Args  [6]uint64
+	Op   uint8
+	_    [3]uint8
+	Arch uint32
+	IP   uint64
+	SP   uint64
+	Nr   uint64 // entry: nr; exit: rval (int64)
+	Args [6]uint64
 }
 
 func getInfo(tid int, info *sysInfo) error {
@@ -267,7 +267,7 @@ func run(argv []string, opt Options) (*Result, error) {
 		opt.OnStart(pid)
 	}
 	pendingEntry := map[int]*Event{} // tid -> event recorded at entry, completed at exit
-	injectExit := map[int]int{}     // tid -> errno to set at exit
+	injectExit := map[int]int{}      // tid -> errno to set at exit
 	root := filepath.Clean(opt.SandboxRoot)
 	resolveFD := func(fd int64) (string, uint64, bool) {
 		p, err := os.Readlink(fmt.Sprintf("/proc/%d/fd/%d", pid, fd))
